@@ -214,6 +214,52 @@ fn perturb(t: &mut Tape, prog: &mut Prog) {
     }
 }
 
+/// Types that point to generated `<T>Vftable` items (through a by-name import, a whole-module import
+/// or from the owner's own module): those items only come into being in the middle of resolution.
+fn add_vftable_refs(t: &mut Tape, prog: &mut Prog) {
+    let owners: Vec<(usize, String)> = prog
+        .mods
+        .iter()
+        .enumerate()
+        .flat_map(|(mi, m)| m.types().filter(|t| t.vft.is_some()).map(move |t| (mi, t.name.clone())))
+        .collect();
+    if owners.is_empty() {
+        return;
+    }
+    let n = 1 + t.below(2);
+    for k in 0..n {
+        let (m1, owner) = owners[t.below(owners.len() as u64) as usize].clone();
+        let m2 = t.below(prog.mods.len() as u64) as usize;
+        let vt = format!("{owner}Vftable");
+        if m2 != m1 {
+            let mut p = prog.mods[m1].path.clone();
+            if t.chance(2, 3) {
+                p.push(vt.clone());
+            }
+            if !prog.mods[m2].uses.contains(&p) {
+                prog.mods[m2].uses.push(p);
+            }
+        }
+        let name = format!("Hook{k}");
+        if prog.mods[m2].items.iter().any(|i| i.name() == name) {
+            continue;
+        }
+        let item = Item::Type(TypeDef {
+            vis: true,
+            name,
+            packed: true,
+            fields: vec![Field::new("vt", Ty::Named(vt.clone()).cptr()), Field::new("vts", Ty::Named(vt).mptr().arr(2))],
+            ..Default::default()
+        });
+        // before or after the other definitions of the module
+        if t.chance(1, 2) {
+            prog.mods[m2].items.insert(0, item);
+        } else {
+            prog.mods[m2].items.push(item);
+        }
+    }
+}
+
 fn hazard_cfg(t: &mut Tape) -> GenCfg {
     let w = if t.chance(1, 2) { 8 } else { 4 };
     let mut cfg = GenCfg::rich(w);
@@ -232,7 +278,7 @@ impl Prop for Schedules {
         "C09/schedules".into()
     }
     fn rule(&self) -> String {
-        format!("multi-module programs from the rich generator, one in five from the C11 generator (one short name defined in several modules, competing by-name and whole-module imports, an extern value of that name) (by-value chains, bases with vftables, cross-module imports, enum/extern-typed fields, impl/vftable signatures over user types). Every program is built: 4x with hash order, under Sorted/Reverse/6 set-dependent seeded schedules, under every priority permutation of its user items when it has <= {} of them ({} sampled permutations otherwise), and under every permutation of add_module order (<= 4 modules; 24 sampled beyond). Oracle: all runs agree on Ok/Err and on the bytes of every output file. Non-trivial: >= 3 user items and >= 2 resolution rounds under some schedule. References to generated <T>Vftable names from signatures are not generated (known finding F06, demonstrated by its own replay)", self.exhaustive_upto, self.sampled)
+        format!("multi-module programs from the rich generator, one in five from the C11 generator (one short name defined in several modules, competing by-name and whole-module imports, an extern value of that name) (by-value chains, bases with vftables, types pointing to generated <T>Vftable items through by-name and whole-module imports, cross-module imports, enum/extern-typed fields, impl/vftable signatures over user types). Every program is built: 4x with hash order, under Sorted/Reverse/6 set-dependent seeded schedules, under every priority permutation of its user items when it has <= {} of them ({} sampled permutations otherwise), and under every permutation of add_module order (<= 4 modules; 24 sampled beyond). Oracle: all runs agree on Ok/Err and on the bytes of every output file. Non-trivial: >= 3 user items and >= 2 resolution rounds under some schedule. References to generated <T>Vftable names from signatures are not generated (known finding F06, demonstrated by its own replay)", self.exhaustive_upto, self.sampled)
     }
     fn gen(&self, t: &mut Tape) -> Case {
         // one case in five: a small module set in which one short name is defined in several
@@ -247,6 +293,9 @@ impl Prop for Schedules {
         let (mut prog, _, _) = gen_prog(t, cfg);
         if t.chance(1, 6) {
             perturb(t, &mut prog);
+        }
+        if t.chance(1, 4) {
+            add_vftable_refs(t, &mut prog);
         }
         Case { prog, w, seed: t.u64() }
     }
@@ -304,6 +353,9 @@ impl Prop for FreshProcess {
         let (mut prog, _, _) = gen_prog(t, cfg);
         if t.chance(1, 6) {
             perturb(t, &mut prog);
+        }
+        if t.chance(1, 4) {
+            add_vftable_refs(t, &mut prog);
         }
         Case { prog, w, seed: t.u64() }
     }
